@@ -21,9 +21,10 @@
    acknowledged a prefix >= k in term t) has no influence on any guard; the
    ghost-free forms are [leader_completeness_trace], [state_machine_safety],
    [committed_never_replaced]. *)
-From DB Require Import Model.RaftNet Model.RaftNetSnap Proofs.RaftNetLists Proofs.RaftNetElection
-  Proofs.RaftNetLog Proofs.RaftNetCommitDefs Proofs.RaftNetCommit Proofs.RaftNetSafety
-  Proofs.RaftNetSnap.
+From DB Require Import Model.RaftNet Model.RaftNetSnap Model.RaftNetCfg Proofs.RaftNetLists
+  Proofs.RaftNetElection Proofs.RaftNetLog Proofs.RaftNetCommitDefs Proofs.RaftNetCommit
+  Proofs.RaftNetSafety Proofs.RaftNetSnap Proofs.RaftNetCfgLemmas Proofs.RaftNetCfgInv
+  Proofs.RaftNetCfgStep Proofs.RaftNetCfgSafety.
 
 (* ================================================================== *)
 (* quorums *)
@@ -403,3 +404,186 @@ Example run_c_disabled :
   run2 V3 init2 (run_c ++ [L2Base (LRestart 4 0 3)]) = None /\
   run2 V3 init2 (run_c ++ [L2Compact 2 4]) = None.
 Proof. vm_compute. repeat split. Qed.
+
+(* ================================================================== *)
+(* Stage 3: single-server membership change (Model/RaftNetCfg.v)          *)
+(* ================================================================== *)
+
+(* A stage-3 state is a stage-1 state [base3 s] + per node the applied index and the
+   pendingConfigChange flag (+ ghost).  The voters a node counts are
+   [cfg_of (first (applied s i) entries of its log)]: membership changes take effect
+   when applied, as in dragonboat; the two guards of the code are steps guards
+   (no campaign while committed > applied; at most one unapplied config change in a
+   leader's log).  [cfg_of] / [is_cc] are parameters; every theorem holds for every pair
+   that meets [cfg_contract]:
+     an entry that is no config change does not change cfg_of,
+     quorums of cfg_of l and cfg_of (l ++ [e]) intersect,
+     cfg_of l has no duplicates, the no-op of a new leader is no config change. *)
+
+(* quorums intersect when one voter is added or removed: the contract is met by every
+   membership function that changes one voter per config change entry *)
+Theorem quorum_intersect_adjacent : forall (C : list id) (x : id),
+  NoDup C -> ~ In x C -> qnear C (x :: C) /\ qnear (x :: C) C.
+Proof. exact RaftNetCfgLemmas.quorum_intersect_adjacent. Qed.
+Print Assumptions quorum_intersect_adjacent.
+
+(* ... for instance by this one (payload 100+v adds voter v, 200+v removes voter v) *)
+Theorem cfg_fold_contract : forall C0, NoDup C0 -> cfg_contract (cfg_fold C0) cc_payload.
+Proof. exact RaftNetCfgSafety.cfg_fold_contract. Qed.
+Print Assumptions cfg_fold_contract.
+
+Theorem election_safety3 : forall cfg_of is_cc, cfg_contract cfg_of is_cc -> forall s i j,
+  reachable3 cfg_of is_cc s ->
+  role (nodes (base3 s) i) = Leader -> role (nodes (base3 s) j) = Leader ->
+  term (nodes (base3 s) i) = term (nodes (base3 s) j) -> i = j.
+Proof. exact RaftNetCfgSafety.election_safety3_c. Qed.
+Print Assumptions election_safety3.
+
+Theorem one_vote_per_term3 : forall cfg_of is_cc, cfg_contract cfg_of is_cc ->
+  forall s t w c1 c2 vl1 vl2,
+  reachable3 cfg_of is_cc s ->
+  In (Vote t w c1 vl1) (msgs (base3 s)) -> In (Vote t w c2 vl2) (msgs (base3 s)) -> c1 = c2.
+Proof. exact RaftNetCfgSafety.one_vote_per_term3_c. Qed.
+Print Assumptions one_vote_per_term3.
+
+(* a leader owns a quorum of votes of the configuration it campaigned with *)
+Theorem leader_has_vote_quorum3 : forall cfg_of is_cc, cfg_contract cfg_of is_cc -> forall s i,
+  reachable3 cfg_of is_cc s -> role (nodes (base3 s) i) = Leader ->
+  exists Q, is_quorum (lcfg s (term (nodes (base3 s) i))) Q /\
+            forall w, In w Q -> voted_msg (base3 s) (term (nodes (base3 s) i)) w i.
+Proof. exact RaftNetCfgSafety.leader_has_vote_quorum3_c. Qed.
+Print Assumptions leader_has_vote_quorum3.
+
+Theorem log_matching3 : forall cfg_of is_cc, cfg_contract cfg_of is_cc -> forall s i j k,
+  reachable3 cfg_of is_cc s ->
+  1 <= k -> k <= length (log (nodes (base3 s) i)) -> k <= length (log (nodes (base3 s) j)) ->
+  term_at (log (nodes (base3 s) i)) k = term_at (log (nodes (base3 s) j)) k ->
+  firstn k (log (nodes (base3 s) i)) = firstn k (log (nodes (base3 s) j)).
+Proof. exact RaftNetCfgSafety.log_matching3_c. Qed.
+Print Assumptions log_matching3.
+
+(* [In (t, k, a) (cevents s)]: the leader of term t advanced its commit index to k with
+   a quorum of the configuration of its first a (applied) entries *)
+Theorem leader_completeness3 : forall cfg_of is_cc, cfg_contract cfg_of is_cc ->
+  forall s t k a i,
+  reachable3 cfg_of is_cc s -> In (t, k, a) (cevents s) ->
+  role (nodes (base3 s) i) = Leader -> t < term (nodes (base3 s) i) ->
+  firstn k (log (nodes (base3 s) i)) = firstn k (llog (base3 s) t).
+Proof. exact RaftNetCfgSafety.leader_completeness3_c. Qed.
+Print Assumptions leader_completeness3.
+
+Theorem leader_completeness3_trace : forall cfg_of is_cc, cfg_contract cfg_of is_cc ->
+  forall s i k s1 ls s2 j,
+  reachable3 cfg_of is_cc s ->
+  step3 cfg_of is_cc s (L3Base (LAdvanceCommit i k)) s1 -> steps3 cfg_of is_cc s1 ls s2 ->
+  role (nodes (base3 s2) j) = Leader ->
+  term (nodes (base3 s) i) < term (nodes (base3 s2) j) ->
+  firstn k (log (nodes (base3 s2) j)) = firstn k (log (nodes (base3 s) i)).
+Proof. exact RaftNetCfgSafety.leader_completeness3_trace_c. Qed.
+Print Assumptions leader_completeness3_trace.
+
+Theorem state_machine_safety3 : forall cfg_of is_cc, cfg_contract cfg_of is_cc -> forall s a b k,
+  reachable3 cfg_of is_cc s ->
+  k <= commit (nodes (base3 s) a) -> k <= commit (nodes (base3 s) b) ->
+  firstn k (log (nodes (base3 s) a)) = firstn k (log (nodes (base3 s) b)).
+Proof. exact RaftNetCfgSafety.state_machine_safety3_c. Qed.
+Print Assumptions state_machine_safety3.
+
+Theorem committed_never_replaced3 : forall cfg_of is_cc, cfg_contract cfg_of is_cc ->
+  forall s ls s' i k,
+  reachable3 cfg_of is_cc s -> steps3 cfg_of is_cc s ls s' -> k <= commit (nodes (base3 s) i) ->
+  firstn k (log (nodes (base3 s') i)) = firstn k (log (nodes (base3 s) i)).
+Proof. exact RaftNetCfgSafety.committed_never_replaced3_c. Qed.
+Print Assumptions committed_never_replaced3.
+
+(* the guards of the code, as facts about every reachable state *)
+Theorem applied_le_committed : forall cfg_of is_cc, cfg_contract cfg_of is_cc -> forall s i,
+  reachable3 cfg_of is_cc s -> applied s i <= commit (nodes (base3 s) i).
+Proof. exact RaftNetCfgSafety.applied_le_committed_c. Qed.
+Print Assumptions applied_le_committed.
+
+Theorem no_campaign_with_unapplied_entries : forall cfg_of is_cc, cfg_contract cfg_of is_cc ->
+  forall s i,
+  reachable3 cfg_of is_cc s -> role (nodes (base3 s) i) = Candidate ->
+  applied s i = commit (nodes (base3 s) i).
+Proof. exact RaftNetCfgSafety.no_campaign_with_unapplied_entries_c. Qed.
+Print Assumptions no_campaign_with_unapplied_entries.
+
+Theorem one_unapplied_cc_in_leader_log : forall cfg_of is_cc, cfg_contract cfg_of is_cc ->
+  forall s i,
+  reachable3 cfg_of is_cc s -> role (nodes (base3 s) i) = Leader ->
+  ccs is_cc (log (nodes (base3 s) i)) (applied s i) <= 1.
+Proof. exact RaftNetCfgSafety.one_unapplied_cc_in_leader_log_c. Qed.
+Print Assumptions one_unapplied_cc_in_leader_log.
+
+(* no log ever has two config changes above its commit index, so the panic in
+   preLeaderPromotionHandleConfigChange (the LBecomeLeader guard) is unreachable *)
+Theorem one_cc_above_commit : forall cfg_of is_cc, cfg_contract cfg_of is_cc -> forall s i,
+  reachable3 cfg_of is_cc s ->
+  ccs is_cc (log (nodes (base3 s) i)) (commit (nodes (base3 s) i)) <= 1.
+Proof. exact RaftNetCfgSafety.one_cc_above_commit_c. Qed.
+Print Assumptions one_cc_above_commit.
+
+Theorem step_fn3_sound : forall cfg_of is_cc s l s',
+  step_fn3 cfg_of is_cc s l = Some s' -> step3 cfg_of is_cc s l s'.
+Proof. exact RaftNetCfgSafety.step_fn3_sound. Qed.
+Print Assumptions step_fn3_sound.
+
+Theorem run3_sound : forall cfg_of is_cc ls s s',
+  run3 cfg_of is_cc s ls = Some s' -> steps3 cfg_of is_cc s ls s'.
+Proof. exact RaftNetCfgSafety.run3_sound. Qed.
+Print Assumptions run3_sound.
+
+(* non-vacuity: initial voters 1, 2, 3; node 1 becomes leader, proposes "add voter 4"
+   (payload 104); a second config change is refused while the first is pending; the change
+   is committed by two of {1,2,3} and applied by the leader; from then on a commit needs
+   three of {4,1,2,3} *)
+Definition cfg3 := cfg_fold [1; 2; 3].
+Definition cc1 : entry := mkE 1 104.
+Definition e7 : entry := mkE 1 7.
+
+Definition run_d : list label3 :=
+  map L3Base [ LTimeout 1; LHigherTerm 2 1; LHandleRV 2 1 1 0 0; LBecomeLeader 1;
+               LPropose 1 104;
+               LSendAE 1 0 2 0; LHandleAE 2 1 1 0 0 [e1; cc1] 0; LSelfAck 1;
+               LAdvanceCommit 1 2 ] ++
+  [ L3Apply 1; L3Apply 1 ] ++
+  map L3Base [ LPropose 1 7; LSendAE 1 2 1 2; LHandleAE 2 1 1 2 1 [e7] 2; LSelfAck 1 ].
+
+Definition obs3 (o : option net3) (i : id) :=
+  match o with
+  | Some s => Some (log (nodes (base3 s) i), commit (nodes (base3 s) i), applied s i,
+                    cfg cfg3 s i, pending s i)
+  | None => None
+  end.
+
+Example run_d_membership_change :
+  obs3 (run3 cfg3 cc_payload init3 run_d) 1 = Some ([e1; cc1; e7], 2, 2, [4; 1; 2; 3], false) /\
+  obs3 (run3 cfg3 cc_payload init3 run_d) 2 = Some ([e1; cc1; e7], 2, 0, [1; 2; 3], false).
+Proof. vm_compute. repeat split. Qed.
+
+(* with acknowledgements of 1 and 2 only, index 3 cannot be committed in the new
+   configuration; with node 3 it can.  A second config change while one is pending, a
+   campaign with unapplied entries, and a plain LRestart label are refused. *)
+Example run_d_quorums :
+  run3 cfg3 cc_payload init3 (run_d ++ [L3Base (LAdvanceCommit 1 3)]) = None /\
+  obs3 (run3 cfg3 cc_payload init3
+          (run_d ++ map L3Base [ LHigherTerm 3 1; LHandleAE 3 1 1 0 0 [e1; cc1] 0;
+                                 LHandleAE 3 1 1 2 1 [e7] 2; LAdvanceCommit 1 3 ])) 1
+    = Some ([e1; cc1; e7], 3, 2, [4; 1; 2; 3], false) /\
+  run3 cfg3 cc_payload init3
+       (map L3Base [ LTimeout 1; LHigherTerm 2 1; LHandleRV 2 1 1 0 0; LBecomeLeader 1;
+                     LPropose 1 104; LPropose 1 105 ]) = None /\
+  run3 cfg3 cc_payload init3 (run_d ++ [L3Base (LTimeout 2)]) = None /\
+  run3 cfg3 cc_payload init3 (run_d ++ [L3Base (LRestart 2 0 3)]) = None /\
+  obs3 (run3 cfg3 cc_payload init3 (run_d ++ [L3Crash 2 2 3 0])) 2
+    = Some ([e1; cc1; e7], 2, 0, [1; 2; 3], false).
+Proof. vm_compute. repeat split. Qed.
+
+(* the run is a run of the relation, so its states are reachable *)
+Example run_d_reachable :
+  exists s, run3 cfg3 cc_payload init3 run_d = Some s /\ reachable3 cfg3 cc_payload s.
+Proof.
+  destruct (run3 cfg3 cc_payload init3 run_d) as [s|] eqn:E; [|vm_compute in E; discriminate].
+  exists s. split; [reflexivity|]. exists run_d. now apply RaftNetCfgSafety.run3_sound.
+Qed.
